@@ -2,6 +2,8 @@ SPECIFICATION Spec
 CONSTANTS
   Trusteds = {"none", "empty", "g", "gg2", "gset"}
   Remotes = {"g", "g2", "other"}
+  Pres = {"", "1", "v6"}
+  Posts = {"", "0"}
   Xfhs = {"absent", "mapped", "list", "unmapped", "empty"}
   Hosts = {"mapped", "unmapped"}
   Variant = "discarded"
